@@ -22,6 +22,7 @@
     html_positions_projection xml_positions_projection coalesce_positions_come_from_events
     html_closers_take_last_position xml_text_position
     html_text_cutting_irrelevant xml_text_cutting_irrelevant
+    html_api_total
 -/
 import Genshi.Lemmas.ParseHtml
 import Genshi.Lemmas.ParseXml
@@ -200,6 +201,36 @@ theorem html_errors_are_parseerror (env : Env) (reads : List HtmlRead) (close : 
     | base n => simp [PyExc.isBase] at hb
     | exc n => rw [a1]; rfl
     | expat l c => rw [a1]; rfl
+
+/-- `HTML(text)` = `Stream(list(HTMLParser(…)))`: the list is built only when nothing was raised -/
+def htmlCall (env : Env) (reads : List HtmlRead) (close : List (Item HtmlCb)) : Except Raised Stream :=
+  match htmlParse env reads close with
+  | (s, none) => .ok s
+  | (_, some r) => .error r
+
+/-- **Totality, as the API shows it.** For every input the tokenizer can turn into callbacks, in any
+    batches, with an environment that raises nothing but `Exception`s: `HTML(text)` either returns a
+    stream that is well nested, merged, void-closed (under the tokenizer contract) and the flattening of
+    a unique forest — or it raises `ParseError`. There is no third outcome. -/
+theorem html_api_total (env : Env) (reads : List HtmlRead) (close : List (Item HtmlCb))
+    (hex : OnlyExceptions env reads close) :
+    (∃ s, htmlCall env reads close = .ok s ∧ WellNested s ∧ noAdjText s = true ∧
+        (TagsOk reads close → voidClosed env.void s = true) ∧
+        ∃ ns, okList ns = true ∧ flattenList ns = s) ∨
+    htmlCall env reads close = .error (.parseError (-1) (-1)) := by
+  unfold htmlCall
+  cases hp : htmlParse env reads close with
+  | mk s err =>
+    cases err with
+    | none =>
+      left
+      obtain ⟨h1, h2, h3⟩ := html_events_wellnested env reads close s hp
+      obtain ⟨ns, hns, _⟩ := html_stream_is_forest env reads close s hp
+      exact ⟨s, rfl, h1, h2, h3, ns, hns⟩
+    | some r =>
+      right
+      have := html_errors_are_parseerror env reads close hex r (by rw [hp])
+      simp [this]
 
 /-- … and only those: a `BaseException` that is not an `Exception` passes through unchanged
     (`except Exception`), e.g. when raised by the tokenizer in the second batch. -/
